@@ -48,6 +48,12 @@ func All() map[string]orch.PropertySpec {
 		"C12": {ID: "C12", Level: "model_checking", Assumptions: append([]string{"allocation is measured with runtime.MemStats.TotalAlloc around the call, serially; the bound is 16 x limit + 8 MiB (the unchanged tree allocates about 6 x limit on a bomb, an unbounded read at least the expansion)"}, trusted...),
 			Rule: "cases are the combinations TLC enumerates from spec/Inflate.tla: six inbound entry points x raw / DEFLATE levels 1, 6, 9 x decompressed size natural / limit-1 / limit / limit+1 / 100 x / 1000 x the effective limit x configured limit unset (5 MiB) / 1 / 2 KiB / 64 KiB x accepting / rejecting document; documents are padded with trailing whitespace to the exact size; every compressed case within the limit is compared with its raw twin; non-trivial = every case",
 			Parts: []orch.Part{{Family: fam.Inflate{}, Monitors: []string{"C12"}}}},
+		"C08": {ID: "C08", Level: "model_checking", Assumptions: append([]string{"value strings, attribute multisets and serialisation layout are seeded samples, not enumerated; single AttributeStatement; distinct attribute names for the map view"}, trusted...),
+			Rule: "structure enumerated by TLC from spec/Genuine.tla: signing placement (Response / every assertion / both) x 1..3 assertions x plain / encrypted x 6 canonicalisation algorithms x 4 digests x 8 signature algorithms (RSA, ECDSA) x KeyInfo present / absent x raw / DEFLATE x one- or two-certificate store; per case the IdP simulator draws NameID, attribute names, FriendlyName, NameFormat, 0..3 values per attribute, SessionIndex and instants over the XML character repertoire (markup characters, leading/trailing/inner whitespace incl. TAB/LF/CR, non-ASCII, astral, CDATA-end and comment fragments) and a layout (4 prefix styles, pretty-printing, comments, comment-split / CDATA text, attribute order, character references, quote style); every field is compared with the simulator's own data model; non-trivial = every case",
+			Parts: []orch.Part{{Family: fam.Genuine{}, Monitors: []string{"C08"}}}},
+		"C20": {ID: "C20", Level: "model_checking", Assumptions: trusted,
+			Rule: "every accepted case of the Genuine family (all layouts, raw and DEFLATE) and of the Forgery family (attacker-shaped roots, ID collisions, lifted signatures) is pre-decoded with DecodeUnverifiedBaseResponse and the five fields compared with the validated result",
+			Parts: []orch.Part{{Family: fam.Genuine{}, Monitors: []string{"C20"}}, {Family: fam.Forgery{}, Monitors: []string{"C20"}}}},
 	}
 }
 
